@@ -253,7 +253,22 @@ fn main() {
     // Run everything inside the pool so that the deep-nesting probes get the large stacks.
     let known = rayon::scope(|_| {
         replay_tier(&id, &ctx);
-        run_property(&id, &ctx)
+        let k = run_property(&id, &ctx);
+        if k && tier == Tier::Thorough {
+            // coverage-guided campaigns behind the same oracles (see DESIGN.md, "Fuzz targets")
+            let (targets, runs): (&[&str], u64) = match id.as_str() {
+                "C01" | "C02" => (&["fz_text", "fz_tokens"], 60_000),
+                "C14" => (&["fz_text"], 120_000),
+                "C12" => (&["fz_text", "fz_tokens", "fz_model"], 40_000),
+                "C11" => (&["fz_text", "fz_sema", "fz_model"], 40_000),
+                "C03" => (&["fz_sema", "fz_model"], 60_000),
+                _ => (&[], 0),
+            };
+            if !targets.is_empty() {
+                fuzzrun::campaign(&ctx, targets, runs);
+            }
+        }
+        k
     });
     if !known {
         println!("INCONCLUSIVE: unknown property {id}");
